@@ -414,8 +414,11 @@ class Extractor:
         if (m == 'put' and len(e.args) >= 2) or (m == 'get' and len(e.args) >= 1):
             return
         recv = ast.unparse(e.func.value)
-        if m == 'put' and recv in ctx.get('guards', []):
-            return
+        here = frozenset(ctx['held'])
+        if not here:
+            return      # the waiting thread holds no bobocep lock: it cannot be part of a cycle of threads waiting for each other
+        if m == 'put' and any(g == recv and h == here for g, h in ctx.get('guards', [])):
+            return      # `full()` was tested under the very same lock acquisitions: no other producer can step in between
         held = ','.join(sorted({l for l, _ in ctx['held']})) or '-'
         self.unguarded.setdefault((f"Queue.{m}() on `{recv}` [{self.loc(ctx, e)}]", held), set()).add(self.role)
 
@@ -434,6 +437,9 @@ class Extractor:
                 break
         if owner is None:
             return                      # a method / property / unknown name: not a field
+        ann = self.classes[owner].attrs.get(attr)
+        if ann is not None and 'Queue' in ast.unparse(ann):
+            return                      # queue.Queue serialises its own operations (waiting on it is `queueWaits`' business)
         fn = ctx.get('fn')
         if kind == 'w' and fn != '__init__':
             self.init_only[(owner, attr)] = False
@@ -516,7 +522,7 @@ class Extractor:
                     isinstance(st.body[-1], (ast.Raise, ast.Return, ast.Continue, ast.Break)):
                 g = self.full_guard(st.test)[1]
                 if g:
-                    guards.append(g)
+                    guards.append((g, frozenset(ctx['held'])))
                     pushed += 1
         for _ in range(pushed):
             guards.pop()
@@ -572,12 +578,12 @@ class Extractor:
             g_body, g_else = self.full_guard(st.test)
             guards = ctx.setdefault('guards', [])
             if g_body:
-                guards.append(g_body)
+                guards.append((g_body, frozenset(ctx['held'])))
             self.block(st.body, ctx)
             if g_body:
                 guards.pop()
             if g_else:
-                guards.append(g_else)
+                guards.append((g_else, frozenset(ctx['held'])))
             self.block(st.orelse, ctx)
             if g_else:
                 guards.pop()
@@ -654,6 +660,8 @@ class Extractor:
                 raise TieBroken(f"{self.loc(ctx, tgt)}: store to .{tgt.attr} on a receiver of unknown type")
             return
         if isinstance(tgt, ast.Subscript):
+            if isinstance(tgt.value, ast.Attribute) and self.is_self(tgt.value.value):
+                self.note_access(ctx, tgt.value.attr, 'w', tgt)          # self._x[k] = v
             self.expr(tgt.value, ctx)
             self.expr(tgt.slice, ctx)
             return
@@ -803,8 +811,14 @@ class Extractor:
             out.append(None)
         return self.union(out) if all(o is not None for o in out) else None
 
+    MUTATORS = {'append', 'appendleft', 'extend', 'extendleft', 'insert', 'pop', 'popleft', 'popitem', 'remove', 'clear',
+                'update', 'setdefault', 'add', 'discard', 'sort', 'reverse', 'rotate'}
+
     def call(self, e, ctx):
         f = e.func
+        if isinstance(f, ast.Attribute) and f.attr in self.MUTATORS and isinstance(f.value, ast.Attribute) \
+                and self.is_self(f.value.value):
+            self.note_access(ctx, f.value.attr, 'w', e)
         argtypes = [self.expr(a, ctx) for a in e.args]
         kwtypes = {}
         for k in e.keywords:
